@@ -50,6 +50,7 @@ type lookupCase struct {
 	Alg      string
 	Fudge    uint16 // >= 300
 	Msg      msgspec.Spec
+	NoMAC    uint16 // read paths, when 16 or 17: the TSIG carries this error (BADSIG / BADKEY) and no MAC at all - nothing is signed
 }
 
 // bufConn is a net.Conn over two buffers: what the library writes is kept, what it reads was put
@@ -179,6 +180,14 @@ func checkLookup(c lookupCase) error {
 		if serr != nil {
 			return nil
 		}
+		if c.NoMAC == 16 || c.NoMAC == 17 {
+			// RFC 8945 5.3.2: the answer to a request that failed with BADSIG / BADKEY carries no MAC and
+			// "MUST be treated as unauthenticated"; anyone can write one
+			u := t
+			u.Error = c.NoMAC
+			signed, signName = u.AppendTo(packed), "no secret at all (MAC Size 0)"
+			pbt.Class("tsig-error-without-mac")
+		}
 		refOK, why := refAcceptsAny(signed, candidates, nil, false, now)
 		bc := &bufConn{r: bytes.NewReader(framed(signed))}
 		var m *dns.Msg
@@ -206,7 +215,7 @@ func checkLookup(c lookupCase) error {
 			return pbt.Errf("%s with the secret map %s: a message whose TSIG names the key %q, MAC made with %s, is reported as verified; no entry of that name has a secret that gives this MAC (reference: %s; entries of that name: %q)",
 				c.Path, describeMap(model), c.Owner, signName, why, candNames)
 		}
-		if !accepted && hasExact && bytes.Equal(exact, signSecret) {
+		if !accepted && hasExact && bytes.Equal(exact, signSecret) && refOK {
 			return pbt.Errf("%s with the secret map %s: a message correctly signed with the secret of the entry %q, which its TSIG names, fails: %v", c.Path, describeMap(model), c.Owner, err)
 		}
 	case "conn-write", "transfer-write":
@@ -379,6 +388,7 @@ func genLookup(t *rapid.T) lookupCase {
 	c.Path = rapid.SampledFrom([]string{"conn-read", "conn-read", "transfer-read", "conn-write", "transfer-write"}).Draw(t, "path")
 	c.Alg = rapid.SampledFrom(algNames).Draw(t, "alg")
 	c.Fudge = rapid.SampledFrom([]uint16{300, 300, 600, 65535}).Draw(t, "fudge")
+	c.NoMAC = rapid.SampledFrom([]uint16{0, 0, 0, 0, 0, 0, 0, 0, 16, 17}).Draw(t, "nomac")
 	return c
 }
 
